@@ -395,4 +395,231 @@ theorem run_upward {cfg : Cfg} {d : Dialect} (hd : d.OpBudgetUp) {fuel : Nat} {c
   rw [this] at h3'
   exact runProgram_ok_iff.2 ⟨c1, cost0, s0, sF.setSf sfF, vs, h1, h2, h3', h4, h5⟩
 
+/-! ### (c) dichotomy: under a smaller budget, the same success or `CostExceeded` -/
+
+theorem effMax_le' {mc1 mc2 : Nat} (hmc : mc1 ≤ mc2) {s : MState} {sf1 : List SoftforkGuard}
+    (hg : GuardsLe sf1 s.softforkStack) : effMax mc1 (s.setSf sf1) ≤ effMax mc2 s := by
+  unfold effMax
+  rcases hg.inv with ⟨rfl, h2⟩ | ⟨g1, g2, r1, r2, rfl, h2, hh, _⟩
+  · simpa [MState.setSf, h2] using hmc
+  · simpa [MState.setSf, h2] using hh.2.2.1
+
+theorem curExt_le' {s : MState} {sf1 : List SoftforkGuard} (hg : GuardsLe sf1 s.softforkStack) :
+    curExt (s.setSf sf1) = curExt s := by
+  unfold curExt
+  rcases hg.inv with ⟨rfl, h2⟩ | ⟨g1, g2, r1, r2, rfl, h2, hh, _⟩
+  · simp [MState.setSf, h2]
+  · simpa [MState.setSf, h2] using hh.2.1
+
+theorem applyBody_down {cfg : Cfg} {d : Dialect} (hd : d.OpBudgetDich) {s s' : MState} {sf1 : List SoftforkGuard}
+    {ol o : Val} {cost em1 em2 c : Nat} (hg : GuardsLe sf1 s.softforkStack) (hc : cost ≤ em1) (hle : em1 ≤ em2)
+    (h : applyBody cfg d s ol o cost (em2 - cost) = .ok (c, s')) :
+    (∃ sf1', applyBody cfg d (s.setSf sf1) ol o cost (em1 - cost) = .ok (c, s'.setSf sf1') ∧
+      GuardsLe sf1' s'.softforkStack) ∨
+    applyBody cfg d (s.setSf sf1) ol o cost (em1 - cost) = .error (.err .CostExceeded) := by
+  unfold applyBody at h ⊢
+  split at h
+  · rename_i hk
+    rw [if_pos hk]
+    unfold applyApply at h ⊢
+    obtain ⟨⟨no, env⟩, h0, h⟩ := M_bind_ok h
+    obtain ⟨⟨c1, s1⟩, h1, h⟩ := M_bind_ok h
+    cases M_pure_ok h
+    obtain ⟨e1, f1⟩ := evalPair_setSf sf1 h1
+    refine Or.inl ⟨sf1, ?_, by rw [f1]; exact hg⟩
+    rw [M_bind_eq h0]; simp only
+    rw [M_bind_eq e1]; rfl
+  · rename_i hk
+    rw [if_neg hk]
+    split at h
+    · rename_i hk2
+      rw [if_pos hk2]
+      unfold applySoftfork at h ⊢
+      obtain ⟨f, hf, h⟩ := M_bind_ok h
+      obtain ⟨ec, hec, h⟩ := M_bind_ok h
+      rw [M_bind_eq hf, M_bind_eq hec]
+      split at h
+      · cases h
+      · rename_i h1
+        by_cases hS : ec > em1 - cost
+        · right; rw [if_pos hS]
+        · rw [if_neg hS]
+          split at h
+          · cases h
+          · rename_i h2
+            rw [if_neg h2]
+            split at h
+            · split at h
+              · rename_i err hperr hallow
+                obtain ⟨s1, hp, h⟩ := M_bind_ok h
+                cases M_pure_ok h
+                obtain ⟨e1, f1⟩ := push_setSf sf1 hp
+                refine Or.inl ⟨sf1, ?_, by rw [f1]; exact hg⟩
+                simp only [hallow, if_true]
+                rw [M_bind_eq e1]; rfl
+              · cases h
+            · rename_i ext prg env hparse
+              simp only
+              have hlen : (s.setSf sf1).softforkStack.length = s.softforkStack.length := hg.length_eq
+              rw [hlen]
+              split at h
+              · cases h
+              · rename_i hlim
+                rw [if_neg hlim]
+                obtain ⟨⟨c1, s1⟩, hev, h⟩ := M_bind_ok h
+                cases M_pure_ok h
+                let g1 : SoftforkGuard :=
+                  { expectedCost := guardExpected (s.setSf sf1) ext cost (em1 - cost) ec,
+                    allocatorState := s.ctr, operatorSet := ext }
+                let g2 : SoftforkGuard :=
+                  { expectedCost := guardExpected s ext cost (em2 - cost) ec, allocatorState := s.ctr,
+                    operatorSet := ext }
+                have hgl : GuardLe g1 g2 := by
+                  refine ⟨rfl, rfl, ?_, ?_⟩
+                  · show guardExpected (s.setSf sf1) ext cost (em1 - cost) ec ≤ guardExpected s ext cost (em2 - cost) ec
+                    unfold guardExpected
+                    split
+                    · rcases hg.inv with ⟨rfl, h2⟩ | ⟨ga, gb, r1, r2, rfl, h2, hh, _⟩
+                      · simp only [MState.setSf, h2]; omega
+                      · simp only [MState.setSf, h2]; exact hh.2.2.1
+                    · exact Nat.le_refl _
+                  · intro hne
+                    show guardExpected (s.setSf sf1) ext cost (em1 - cost) ec = guardExpected s ext cost (em2 - cost) ec
+                    unfold guardExpected
+                    have : (ext == OperatorSet.PreHardFork) = false := by
+                      cases hb : (ext == OperatorSet.PreHardFork)
+                      · rfl
+                      · exact absurd (by simpa using hb) hne
+                    simp only [this, Bool.false_eq_true, if_false]
+                obtain ⟨e1, f1⟩ := evalPair_setSf (g1 :: sf1) hev
+                refine Or.inl ⟨g1 :: sf1, ?_, ?_⟩
+                · have : enterGuard (s.setSf sf1) g1 = (enterGuard s g2).setSf (g1 :: sf1) := rfl
+                  have hctr : (s.setSf sf1).ctr = s.ctr := rfl
+                  simp only [hctr]
+                  rw [this, M_bind_eq e1]; rfl
+                · rw [f1]
+                  exact GuardsRel.cons hgl hg
+    · rename_i hk2
+      rw [if_neg hk2]
+      unfold applyOrdinary at h ⊢
+      rw [curExt_le' hg]
+      have hctr : (s.setSf sf1).ctr = s.ctr := rfl
+      rw [hctr]
+      split at h
+      · cases h
+      · cases h
+      · rename_i cost' v c' hop
+        obtain ⟨s1, hp, h⟩ := M_bind_ok h
+        cases M_pure_ok h
+        obtain ⟨e1, f1⟩ := push_setSf sf1 hp
+        rcases hd o ol _ _ _ (em1 - cost) _ hop with hsame | hce
+        · simp only [hsame]
+          refine Or.inl ⟨sf1, ?_, by rw [f1]; exact hg⟩
+          have : ({ s with ctr := c' } : MState).setSf sf1 = { s.setSf sf1 with ctr := c' } := rfl
+          rw [this] at e1
+          rw [M_bind_eq e1]; rfl
+        · right; simp only [hce]
+
+theorem stepOp_down {cfg : Cfg} {d : Dialect} (hd : d.OpBudgetDich) {s s' : MState} {sf1 : List SoftforkGuard}
+    {op : Operation} {cost em1 em2 c : Nat} (hg : GuardsLe sf1 s.softforkStack) (hc : cost ≤ em1)
+    (hle : em1 ≤ em2) (h : stepOp cfg d s op cost em2 = .ok (c, s')) :
+    (∃ sf1', stepOp cfg d (s.setSf sf1) op cost em1 = .ok (c, s'.setSf sf1') ∧ GuardsLe sf1' s'.softforkStack) ∨
+    stepOp cfg d (s.setSf sf1) op cost em1 = .error (.err .CostExceeded) := by
+  cases op with
+  | Apply =>
+    simp only [stepOp] at h ⊢
+    match hvs : s.valStack, hes : s.envStack with
+    | [], _ => simp [applyOp, MState.pop, hvs, bind, Except.bind] at h
+    | [_], _ => simp [applyOp, MState.pop, hvs, bind, Except.bind] at h
+    | _ :: _ :: _, [] => simp [applyOp, MState.pop, hvs, hes, bind, Except.bind] at h
+    | ol :: o :: vals, e0 :: envs =>
+      rw [applyOp_eq cfg _ s _ _ hvs hes] at h
+      rw [applyOp_eq cfg _ (s.setSf sf1) _ _ (show (s.setSf sf1).valStack = _ from hvs)
+        (show (s.setSf sf1).envStack = _ from hes)]
+      exact applyBody_down hd (s := s.applyBase vals envs) hg hc hle h
+  | ExitGuard =>
+    simp only [stepOp] at h ⊢
+    rcases hg.inv with ⟨rfl, h2⟩ | ⟨g1, g2, r1, r2, rfl, h2, hh, ht⟩
+    · unfold exitGuard at h
+      rw [h2] at h
+      cases h
+    · obtain ⟨e1, f1⟩ := exitGuard_rel (r2 := r1) h2 hh.1.symm hh.2.1.symm
+        (fun hne => (hh.2.2.2 (by rw [hh.2.1]; exact hne)).symm) h
+      exact Or.inl ⟨r1, e1, by rw [f1]; exact ht⟩
+  | Cons =>
+    simp only [stepOp] at h ⊢
+    obtain ⟨e1, f1⟩ := consOp_setSf sf1 h
+    exact Or.inl ⟨sf1, e1, by rw [f1]; exact hg⟩
+  | SwapEval =>
+    simp only [stepOp] at h ⊢
+    obtain ⟨e1, f1⟩ := swapEvalOp_setSf sf1 h
+    exact Or.inl ⟨sf1, e1, by rw [f1]; exact hg⟩
+  | RestoreAllocator =>
+    simp only [stepOp] at h ⊢
+    split at h
+    · cases h
+    · rename_i h1
+      split at h
+      · cases h
+      · rename_i h2
+        cases h
+        refine Or.inl ⟨sf1, ?_, hg⟩
+        have e1 : (s.setSf sf1).allocatorStack = s.allocatorStack := rfl
+        have e2 : (s.setSf sf1).valStack = s.valStack := rfl
+        rw [e1, e2, if_neg h1, if_neg h2]; rfl
+
+theorem runLoop_down {cfg : Cfg} {d : Dialect} (hd : d.OpBudgetDich) {mc1 mc2 : Nat} (hmc : mc1 ≤ mc2)
+    (fuel : Nat) :
+    ∀ (s : MState) (sf1 : List SoftforkGuard) (cost C : Nat) (sF : MState), GuardsLe sf1 s.softforkStack →
+      runLoop cfg d mc2 fuel s cost = some (.ok (C, sF)) →
+      (∃ sfF, runLoop cfg d mc1 fuel (s.setSf sf1) cost = some (.ok (C, sF.setSf sfF))) ∨
+      runLoop cfg d mc1 fuel (s.setSf sf1) cost = some (.error (.err .CostExceeded)) := by
+  induction fuel with
+  | zero => intro s sf1 cost C sF _ h; simp [runLoop_zero] at h
+  | succ n ih =>
+    intro s sf1 cost C sF hg h
+    have hem := effMax_le' hmc hg
+    rw [runLoop_succ] at h ⊢
+    unfold loopBody at h ⊢
+    by_cases hcS : cost > effMax mc1 (s.setSf sf1)
+    · right; rw [if_pos hcS]
+    · rw [if_neg hcS]
+      split at h
+      · cases h
+      · have hops : (s.setSf sf1).opStack = s.opStack := rfl
+        rw [hops]
+        split at h
+        · cases h
+          exact Or.inl ⟨sf1, rfl⟩
+        · rename_i op ops hop
+          split at h
+          · cases h
+          · rename_i c s1 hst
+            have : ({ s.setSf sf1 with opStack := ops } : MState) = ({ s with opStack := ops } : MState).setSf sf1 := rfl
+            rcases stepOp_down hd (s := { s with opStack := ops }) (sf1 := sf1) hg
+              (Nat.le_of_not_gt hcS) hem hst with ⟨sf1', e1, hg'⟩ | hce
+            · simp only [this, e1]
+              exact ih s1 sf1' _ C sF hg' h
+            · right; simp only [this, hce]
+
+/-- **C02 (c), dichotomy.**  A program that succeeds under budget `M` gives, under any other budget
+`M'` (same fuel), the identical success or `CostExceeded` — never another error, never another
+result. -/
+theorem run_dichotomy {cfg : Cfg} {d : Dialect} (hd : d.OpBudget) {fuel : Nat} {c0 : Ctr} {p e : Val}
+    {M : Nat} {r : Nat × Val × Ctr} (h : runProgram cfg d fuel c0 p e M = some (.ok r)) (M' : Nat) :
+    runProgram cfg d fuel c0 p e M' = some (.ok r) ∨
+    runProgram cfg d fuel c0 p e M' = some (.error .CostExceeded) := by
+  by_cases hM : effBudget M ≤ effBudget M'
+  · exact Or.inl (run_upward hd.up h hM)
+  · obtain ⟨C, v, c⟩ := r
+    obtain ⟨c1, cost0, s0, sF, vs, h1, h2, h3, h4, h5⟩ := runProgram_ok_iff.1 h
+    have hsf0 := initial_sf h2
+    have hs0 : s0.setSf [] = s0 := by rw [← hsf0]; rfl
+    rcases runLoop_down hd.dich (Nat.le_of_lt (Nat.lt_of_not_le hM)) fuel s0 [] cost0 C sF
+      (by rw [hsf0]; exact GuardsRel.nil) h3 with ⟨sfF, h3'⟩ | hce
+    · rw [hs0] at h3'
+      exact Or.inl (runProgram_ok_iff.2 ⟨c1, cost0, s0, sF.setSf sfF, vs, h1, h2, h3', h4, h5⟩)
+    · rw [hs0] at hce
+      exact Or.inr (runProgram_of_loop h1 h2 hce)
+
 end Clvm.Interp
